@@ -376,6 +376,70 @@ fn worker_c12(tier: &str, seed: u64) -> ExitCode {
 // replay
 // ---------------------------------------------------------------------------
 
+/// Oracle self-test: dumps seeded constraint systems with the exact LP's answer and the real
+/// backend's classification, one JSON object per line, for an independent referee (z3).
+pub fn selftest_lp(n: u64, seed: u64) -> ExitCode {
+    use crate::exact::{width, Row, Q};
+    use crate::prng::Prng;
+    let mut rng = Prng::new(mix(&[seed, 0x1b]));
+    for _ in 0..n {
+        let dim = 1 + rng.below(3);
+        let nrows = 1 + rng.below(8);
+        let style = rng.below(4);
+        let mut rows_f: Vec<(Vec<f64>, f64)> = Vec::new();
+        for _ in 0..nrows {
+            let draw = |rng: &mut Prng| -> f64 {
+                match style {
+                    0 => rng.range(-1, 1) as f64,
+                    1 => rng.range(-3, 3) as f64,
+                    2 => rng.range(-8, 8) as f64 / 4.0,
+                    _ => rng.range(-40, 40) as f64 / 8.0,
+                }
+            };
+            let mut a: Vec<f64> = (0..dim).map(|_| draw(&mut rng)).collect();
+            let mut b = draw(&mut rng);
+            if !rows_f.is_empty() && rng.chance(1, 4) {
+                // degenerate: opposite / parallel of an earlier row
+                let (pa, pb) = rows_f[rng.below(rows_f.len())].clone();
+                a = pa.iter().map(|v| -v).collect();
+                b = -pb + if rng.chance(1, 2) { 0.0 } else { draw(&mut rng) };
+            }
+            rows_f.push((a, b));
+        }
+        let rows: Vec<Row> = rows_f
+            .iter()
+            .map(|(a, b)| Row { a: a.iter().map(|v| Q::from_f64(*v)).collect(), b: Q::from_f64(*b) })
+            .collect();
+        let w = width(dim, &rows);
+        let lit = crate::lit::AffLit { indim: dim, mat: rows_f.iter().map(|r| r.0.clone()).collect(), bias: rows_f.iter().map(|r| r.1).collect() };
+        let status = lit.to_poly().status();
+        let (kind, inside) = match &status {
+            affinitree::linalg::polyhedron::PolytopeStatus::Optimal(x) => {
+                let xq: Vec<Q> = x.iter().map(|v| Q::from_f64(*v)).collect();
+                ("optimal", rows.iter().all(|r| crate::oracle::contains_with_allowance(r, &xq).0))
+            }
+            affinitree::linalg::polyhedron::PolytopeStatus::Infeasible => ("infeasible", false),
+            affinitree::linalg::polyhedron::PolytopeStatus::Unbounded => ("unbounded", false),
+            affinitree::linalg::polyhedron::PolytopeStatus::Error(_) => ("error", false),
+        };
+        let q = |x: &Q| format!("{}/{}", x.numer(), x.denom());
+        println!(
+            "{}",
+            json!({
+                "dim": dim,
+                "rows": rows.iter().map(|r| { let mut v: Vec<String> = r.a.iter().map(q).collect(); v.push(q(&r.b)); v }).collect::<Vec<_>>(),
+                "trivially_empty": w.trivially_empty,
+                "rho": q(&w.rho),
+                "center": w.center.iter().map(q).collect::<Vec<_>>(),
+                "class": format!("{:?}", w.class()),
+                "backend": kind,
+                "backend_point_inside": inside,
+            })
+        );
+    }
+    ExitCode::SUCCESS
+}
+
 /// Prints the event log of one seeded run (for determinism diffs).
 pub fn trace(id: &str, run_index: u64) -> ExitCode {
     let seed = env_u64("VERIF_SEED").unwrap_or(DEFAULT_SEED);
